@@ -793,6 +793,20 @@ func init() {
 			return arr
 		},
 
+		// parquet-go's ValueOf(interface{}) goes through reflect; for int64 it is makeValueInt64
+		"github.com/segmentio/parquet-go.ValueOf": func(m *Machine, caller *frame, fn *ssa.Function, a []Value) Value {
+			iv, ok := a[0].(Iface)
+			if ok && iv.T != nil {
+				if b, isBasic := iv.T.Underlying().(*types.Basic); isBasic && (b.Kind() == types.Int64 || b.Kind() == types.Int) {
+					if mk := fn.Pkg.Func("makeValueInt64"); mk != nil {
+						return m.runBody(caller, mk, []Value{iv.V}, nil)
+					}
+				}
+			}
+			m.abort("unsupported: parquet.ValueOf of a non-int64 value")
+			return nil
+		},
+
 		// ---- sort ----
 		"sort.Slice":       sortSliceIntr,
 		"sort.SliceStable": sortSliceIntr,
